@@ -20,8 +20,8 @@ MAX_POINTS = 12000      # larger rules are not written out (a correct rule never
 
 def nmax(tier):
     q = tier == 'quick'
-    return {'RefPoint': 24, 'RefLine': 40 if q else 80, 'RefTri': 24, 'RefQuad': 40 if q else 80,
-            'RefTet': 24, 'RefHex': 20 if q else 40, 'RefWedge': 24}
+    return {'RefPoint': 24, 'RefLine': 40 if q else 80, 'RefTri': 24, 'RefQuad': 30 if q else 80,
+            'RefTet': 24, 'RefHex': 14 if q else 40, 'RefWedge': 24}
 
 
 def refdom(name):
